@@ -105,13 +105,30 @@ def run_property(prop, tier, seed, only_key=None):
     factdir, th, nfiles = facts.ensure_facts(tier)
     mod = importlib.import_module("rules." + prop)
     ctx = Ctx(factdir, tier, th)
+    # a rule that does not terminate must not hang the check: after TFV_RULE_TIMEOUT seconds (default 30 min; the slowest rule
+    # takes about 2 min on a heavily loaded machine) the evaluation is abandoned and reported (fail closed)
+    import signal
+
+    def _timeout(signum, frame):
+        raise TimeoutError("rule evaluation exceeded %s s" % os.environ.get("TFV_RULE_TIMEOUT", "1800"))
+    try:
+        signal.signal(signal.SIGALRM, _timeout)
+        signal.alarm(int(os.environ.get("TFV_RULE_TIMEOUT", "1800")))
+    except (ValueError, AttributeError):
+        pass
     try:
         mod.run(ctx, R)
+        signal.alarm(0)
     except SystemExit:
         raise
     except Exception as e:  # an analysis crash is not a pass
         R.fail("engine", "exception:%s" % type(e).__name__, "-",
                "rule engine raised %r (fail closed)\n%s" % (e, traceback.format_exc()))
+    finally:
+        try:
+            signal.alarm(0)
+        except (ValueError, AttributeError):
+            pass
     thorough = {}
     if tier == "thorough" and not only_key:
         # (a) the same rules on trustfall_core built with the other feature set (`__private`): cfg-gated code is parsed too
